@@ -163,14 +163,17 @@ def context_sanitize(stream, fkw, neutral):
 
 
 def neutralise_stream(toks, neutral, escape_rcdata):
-    """serializer-side neutralisers: write namespaced attributes with their prefix; escape text that the serializer is
-    about to write raw only because of a bare element name"""
+    """serializer-side neutralisers (twins of the Serializer.tla branches): write namespaced attributes with their prefix;
+    escape the text that the serializer is about to write raw only because of a deviation that is being neutralised.
+    The serializer's in_cdata flag is tracked exactly as serializer.py keeps it (set by every raw-named start tag, cleared by
+    every raw-named end tag, it survives child elements) next to the flag of the model without the neutralised deviations."""
     fix_prefix = "mxss-attr-prefix-dropped" in neutral
     fix_bare = "mxss-rawtext-bare-name" in neutral
     fix_noscript = "mxss-noscript-raw" in neutral
     if not (fix_prefix or fix_bare or fix_noscript):
         return toks
-    out, stack = [], []
+    out = []
+    real = want = False
     for tok in toks:
         t = tok["type"]
         if t in ("StartTag", "EmptyTag"):
@@ -183,19 +186,18 @@ def neutralise_stream(toks, neutral, escape_rcdata):
                     else:
                         data[(None if ans in FOREIGN_PREFIX else ans, local)] = v
                 tok["data"] = data
-            if t == "StartTag":
-                stack.append((tok["namespace"], tok["name"]))
+            name, html = tok["name"], tok["namespace"] in (None, HTML)
+            if name in RAWNAMES and not escape_rcdata:
+                real = True
+                if (html or not fix_bare) and not (fix_noscript and name == "noscript"):
+                    want = True
         elif t == "EndTag":
-            if stack:
-                stack.pop()
-        elif t == "Characters" and stack and not escape_rcdata:
-            # in_cdata is set by the innermost open raw-named element and cleared by any raw-named end tag; in the
-            # streams of parsed trees raw-named elements hold text only, so "parent is raw-named" is the same thing
-            ns, name = stack[-1]
-            if name in RAWNAMES:
-                html = ns is None or ns == HTML
-                if (fix_bare and not html) or (fix_noscript and html and name == "noscript"):
-                    tok = dict(tok, data=sax_escape(tok["data"]))
+            if tok["name"] in RAWNAMES:
+                real = False
+                if tok["namespace"] in (None, HTML) or not fix_bare:
+                    want = False
+        elif t == "Characters" and real and not want:
+            tok = dict(tok, data=sax_escape(tok["data"]))
         out.append(tok)
     return out
 
@@ -420,7 +422,8 @@ PIECES = ["<svg>", "<math>", "<style>", "<title>", "<textarea>", "<noscript>", "
           "<a href='http://a/?b&amp;c=d&amp;colon;'>", "<a href='data:text/html,x'>", "<a href='data:image/png,x'>", "<img src='data:image/png;base64,x'>",
           "<p style='color:red'>", "<p style='background:url(javascript:x)'>", "<p style='color: URL(1)'>", "<p style='width:expression(1)'>",
           "<p style='color:red;&amp;#x3a;'>", "<p id=1 id=2>", "<p class>", "<p =x>", "<p a<b=c>", "<p xmlns=x>", "<svg xmlns:xlink=x>",
-          "<p xml:lang=en xlink:href=javascript:x>", "<svg viewBox=1 definitionURL=x>", "<math definitionurl=javascript:x xlink:href=javascript:y>",
+          "<p xml:lang=en xlink:href=javascript:x>", "<svg viewBox=1 definitionURL=x>", "<svg show=new actuate=onLoad arcrole=x base=javascript:y space=preserve>", "<p show=x base=y>",
+          "<svg><a show=new href=#a>", "<math actuate=x>", "<math definitionurl=javascript:x xlink:href=javascript:y>",
           "<textarea>\n", "<pre>\n\n", "<listing>\n", "&#13;", "\x00", "\r\n", "\r", "\x0c", "&amp;", "&", "&#x26;lt;", "&amp;#60;b&amp;#62;", "&lt;!--",
           "--&gt;", "&lt;/textarea&gt;&lt;img src=x onerror=y&gt;", "&lt;/title&gt;&lt;img src=x onerror=y&gt;", "&lt;/style&gt;&lt;img src=x onerror=y&gt;",
           "&lt;/noscript&gt;&lt;img src=x onerror=y&gt;", "&lt;/desc&gt;&lt;img src=x onerror=y&gt;", "&lt;![CDATA[&lt;img src=x onerror=y&gt;]]&gt;",
@@ -441,8 +444,8 @@ EXT_WITNESSES = [("<noscript>&lt;img src=x onerror=y&gt;</noscript>", "div", Fal
 def mxss_doc(rng):
     n = rng.choice([1, 2, 2, 3, 3, 4, 4, 5, 6, 8])
     parts = [rng.choice(PIECES) for _ in range(n)]
-    if rng.random() < 0.12:
-        parts.insert(0, rng.choice(DOCTYPES))
+    if rng.random() < 0.1:
+        parts.insert(0, rng.choice(DOCTYPES))          # build_jobs parses these as documents with the dom builder
     return "".join(parts)
 
 
@@ -469,7 +472,7 @@ def build_jobs(ctx, extra_srcs):
     jobs = []
     for i, (src, cx1, lists, scr) in enumerate(srcs):
         if cx1 == "?":
-            cx1 = rng.choice(FIRST_CX)
+            cx1 = None if src[:9].lower() == "<!doctype" else rng.choice(FIRST_CX)
         if lists == "?":
             lists = "extended" if rng.random() < 0.2 else "default"
         scr1 = (rng.random() < 0.4) if scr is None else scr
@@ -695,9 +698,7 @@ def run(ctx):
                 "options x first-parse mode x 4 re-parse modes each, judged by TLC; rejected recordings re-run with listed constructs "
                 "neutralised and judged again. non-trivial = recording in which the sanitizer escaped or dropped something")
     failing = run_mc(ctx, plan, parser, faithful, listed_keys)
-    if ctx.violations:
-        return
-    ctx.exhaustive = True
+    ctx.exhaustive = not ctx.violations
     # ---- code -> spec
     failing = sorted(set(failing))
     ctx.rng.shuffle(failing)
